@@ -4,7 +4,8 @@ Spec:   AFV/Spec/FusedPeak.lean  `peak`: explicit timeline over the execution of
                                  first to last use, kept for the whole execution of a shared loop they survive, only backing
                                  stores shared between Einsums, persistent holders live throughout × n_instances.  Nothing of the
                                  joiner's reservation algebra appears in it.
-Proof:  AFV/Props/C06.lean       theorems about the reference and about the single-Einsum model (see the file; partial).
+Proof:  AFV/Props/C06.lean       single Einsum: peak = sum of the buffer sizes at their allocation points (peak_single_timeline,
+                                 uses_contiguous); liveness facts of the reference; oversubscription verdict (see the file; partial).
 Tie:    correspondence through evaluate_mapping of the CURRENT tree — which combines the per-Einsum reservations of run_model
         with the joiner's reservation algebra (merge_next / free_to_loop_index / adjust_reservations): for generated fused
         mappings of 1-3 Einsums (matmul chains, one-producer-two-consumers, two-producers-one-consumer; flat and nested
@@ -40,6 +41,24 @@ def spec_peak(drv, c):
     if isinstance(rep, dict):
         raise RuntimeError(f"driver: {rep}")
     return [Fraction(p, q) for p, q in rep]
+
+
+def nest_peak_req(case):
+    """A single-Einsum nestlib case (no Tolls) as input of the reference `peak`."""
+    wl, arch = case["workload"], case["arch"]
+    nt = len(wl["tensors"])
+    bits = []
+    for lv in arch["levels"]:
+        ov = {t: b for t, b in lv["bpv"]}
+        bits.append([ov.get(t, wl["tensors"][t]["bpv"]) for t in range(nt)])
+    pre = []
+    for k, nd in enumerate(case["mapping"]):
+        if nd[0] == "S":
+            pre.append(["S", k + 1, nd[1], list(nd[2]), False])
+        elif nd[0] == "L":
+            pre.append(["L", k + 1, nd[1], nd[2]])
+    w = {"bounds": wl["bounds"], "einsums": [list(range(nt))], "tensorRvs": [t["rvs"] for t in wl["tensors"]], "bits": bits, "ninst": 1}
+    return {"op": "peak", "workload": w, "tree": {"pre": pre, "e": 0}, "levels": len(arch["levels"])}
 
 
 def pow2(n):
@@ -120,7 +139,8 @@ def run(ctx: Ctx):
         "intermediates at any level below the shared loops, further prefix holders, flat or once-nested Sequential, branches with "
         "holders of every tensor at any subset of levels in any order, below loops, merged into multi-tensor nodes; n_instances "
         "1-3. Streams: fused (must agree exactly), oversubscription (sizes around the peak), shared-not-fused (directed at the "
-        "known finding), mapper-returned mappings. non-trivial = at least two Einsums and a holder below a shared loop or a "
+        "known finding), single-nest-model-vs-reference (Lean analytic.memBits = Lean peak on single-Einsum nests of the C05 generator, "
+        "no Tolls), mapper-returned mappings. non-trivial = at least two Einsums and a holder below a shared loop or a "
         "nested Sequential"
     )
     ctx.cov["tolerance"] = "exact rationals (usage × size) when the size is a power of two, else 1e-5 relative"
@@ -205,6 +225,30 @@ def run(ctx: Ctx):
     for _ in range(n_nofuse):
         c = F.gen_case(rng, N=rng.choice([2, 3]), kind="chain", fused=False)
         handle(c, "shared-not-fused", expect_key="shared-loops-without-fused-tensor")
+
+    # single Einsum: the Lean model of run_model's reservations (`analytic`, tied to the code by C05) against the reference peak —
+    # the part of `peak_single` that is not proved (tracker placement = declarative allocation point); does not touch /repo
+    from harness import nestlib as NL
+    n_nest = 2500 if ctx.thorough else 150
+    bad_nest = 0
+    for i in range(n_nest):
+        case = NL.gen_case(rng, exact=True, small=(i % 3 != 0), toll_prob=0.0)
+        rep = drv.ask("C05", NL.driver_req(case, "eval"))
+        if "err" in rep or not rep.get("wf"):
+            ctx.dist("nest-model-skipped")
+            continue
+        an = {l: NL.q2frac(v) for l, v in rep["analytic"]["memBits"]}
+        pk = drv.ask("C06", nest_peak_req(case))
+        if isinstance(pk, dict):
+            raise RuntimeError(f"driver: {pk}")
+        pk = [Fraction(p, q) for p, q in pk]
+        ctx.case({"nest": case["mapping"], "bounds": case["workload"]["bounds"]}, nontrivial=False, branches=["single-nest-model-vs-reference"])
+        ctx.dist("single-nest-model-vs-reference")
+        if any(an.get(l, 0) != pk[l] for l in range(len(pk))):
+            bad_nest += 1
+            if bad_nest == 1:
+                ctx.broken("the Lean model of run_model's reservations (analytic.memBits) and the reference peak disagree on a single-Einsum nest",
+                           {"case": case, "analytic_memBits": {str(k): str(v) for k, v in an.items()}, "peak": [str(x) for x in pk]})
 
     # mapper-returned mappings
     try:
